@@ -49,6 +49,9 @@
 (*   greedy policy: decided exactly, without tolerance: the final event carries, per      *)
 (*       state, the dense ranks rk[s][a] of the raw float Q-values (exact float          *)
 (*       comparison); every action in the support must have the maximal rank             *)
+(*   SC is chosen per trace so that every product stays below 2^30 (2^24 down to 2^7 for   *)
+(*   the slow-mixing family with gamma = 999/1000, where Vmax = 1000 rmax); the exact       *)
+(*   machine is only compared (orc = 1) when SC >= 1024.                                    *)
 (*   distance to the exact machine (coarse unit 1/1024): TC = ceil(1024 (diff + 3/SC)    *)
 (*       / (1 - gamma)) + 3   (contraction: ||Q - Q*|| <= residual / (1 - gamma))        *)
 EXTENDS MDP, Json, IOUtils
